@@ -687,7 +687,11 @@ def _execute(scn, keep_objects=False, prev_ctx=None):
                             for o in ctx.objs]
 
     # -- load, initial conditions
-    def attach_load(spec):
+    ctx.load2_calls = []
+
+    def attach_load(spec, calls=None):
+        if calls is None:
+            calls = ctx.load_calls
         li = spec.get('on', ctx.chain[-1])
         unit = spec['unit']
         fac = si.factor('Torque', unit)
@@ -699,7 +703,7 @@ def _execute(scn, keep_objects=False, prev_ctx=None):
             if spec.get('noise'):
                 # control experiment: conditioning of the load function
                 # itself with respect to rounding of its arguments
-                sg = 1 if len(ctx.load_calls) % 2 else -1
+                sg = 1 if len(calls) % 2 else -1
                 v = eval_load(spec, th * (1 + sg * spec['noise']),
                               w * (1 - sg * spec['noise']),
                               t * (1 + sg * spec['noise']))
@@ -708,8 +712,8 @@ def _execute(scn, keep_objects=False, prev_ctx=None):
             if spec.get('noise'):
                 # rounding-level perturbation at every call (used only by the
                 # numerical-stability control experiment of the differentials)
-                v *= 1.0 + spec['noise'] * (1 if len(ctx.load_calls) % 2 else -1)
-            ctx.load_calls.append({'seq': next_seq(), 'epoch': ctx.epoch,
+                v *= 1.0 + spec['noise'] * (1 if len(calls) % 2 else -1)
+            calls.append({'seq': next_seq(), 'epoch': ctx.epoch,
                                    'k': len(pt.time) - 1, 't': t, 'th': th,
                                    'w': w, 'v': v})
             # a user function written with numpy hands back numpy scalars
@@ -725,6 +729,12 @@ def _execute(scn, keep_objects=False, prev_ctx=None):
         H['load_on'] = li
     if scn.get('load') is not None:
         attach_load(scn['load'])
+    if scn.get('load2') is not None:
+        # a second external torque, on an intermediate gear (the library
+        # lets it replace the load coming from downstream)
+        attach_load(scn['load2'], ctx.load2_calls)
+        H['load_on'] = scn.get('load', {}).get('on', ctx.chain[-1])
+        H['load2_on'] = scn['load2']['on']
     init = scn.get('init')
 
     def apply_ic(with_pwm=True):
